@@ -12,6 +12,13 @@
 // base configuration in exactly one field each (app.sendfiles memoises one file handler +
 // Cache-Control value per configuration); every member is a history letter and a probe.
 //
+// Values the context DERIVES from several request inputs (BaseURL, Scheme, Host, IP, Path, Query,
+// Is, Accepts*, Range, Fresh, cookies, body decodings ...) get a family of their own (derived.go):
+// requests built from a base request and a table of inputs, and every ordered pair (history,
+// probe) of them that differs in exactly ONE input while agreeing on all others — a cache keyed
+// or validated by a subset of the inputs of the value it holds cannot hide behind letters that
+// differ from the probe in everything at once.
+//
 // Pooled-object reuse is made deterministic: worker processes run with GOMAXPROCS=1,
 // all pools are emptied (runtime.GC() twice) before every execution and the collector
 // is switched off during it.
@@ -20,9 +27,11 @@ package main
 import (
 	"bytes"
 	"fmt"
+	"net"
 	"os"
 	"runtime"
 	"runtime/debug"
+	"runtime/pprof"
 	"sort"
 	"strings"
 	"time"
@@ -48,13 +57,17 @@ type traceResult struct {
 // runTrace executes reqs in order against a fresh app. newConn[i] says whether request i
 // opens a new connection (newConn[0] is ignored: the first request always does).
 func runTrace(cfg int, reqs [][]byte, newConn []bool) *traceResult {
-	return runTraceOpt(cfg, reqs, newConn, true)
+	return runTraceOpt(cfg, reqs, newConn, nil, true)
 }
 
 // runTraceOpt: flush=false keeps whatever the previous trace left in the process-global
 // pools (redirect, binder, fasthttp); the application, its ctx pool and its server are
 // fresh in either case.
-func runTraceOpt(cfg int, reqs [][]byte, newConn []bool, flush bool) *traceResult {
+//
+// attrs[i] (nil: all default) is what request i inherits from its connection (TLS, peer address):
+// a request whose attributes differ from those of the previous request opens a new connection
+// whatever newConn says.
+func runTraceOpt(cfg int, reqs [][]byte, newConn []bool, attrs []connAttr, flush bool) *traceResult {
 	if flush {
 		runtime.GC()
 		runtime.GC() // second cycle drops the pools' victim caches: every pool is empty now
@@ -67,11 +80,15 @@ func runTraceOpt(cfg int, reqs [][]byte, newConn []bool, flush bool) *traceResul
 	i := 0
 	for i < n {
 		j := i + 1
-		for j < n && !newConn[j] {
+		for j < n && !newConn[j] && (attrs == nil || attrs[j] == attrs[i]) {
 			j++
 		}
 		base := i
 		conn := &stepConn{reqs: reqs[i:j], onRead: func(k int) { st.cur = base + k }}
+		var nc net.Conn = conn
+		if attrs != nil {
+			nc = makeConn(attrs[i], conn)
+		}
 		res.Conns++
 		func() {
 			defer func() {
@@ -80,7 +97,7 @@ func runTraceOpt(cfg int, reqs [][]byte, newConn []bool, flush bool) *traceResul
 					res.PanicMsg = fmt.Sprint(p)
 				}
 			}()
-			_ = srv.ServeConn(conn)
+			_ = srv.ServeConn(nc)
 		}()
 		for k := 0; k < conn.next; k++ {
 			res.Resp[i+k] = conn.outs[k]
@@ -288,17 +305,43 @@ func unpack(s string) map[string]string {
 
 // diffBase: the keys in which observation f differs from the fresh-application observation.
 func (ck *checker) diffBase(cfg, probe int, f map[string]string) []string {
-	if pack(f) == ck.baseline[cfg][probe] {
+	if pack(f) == ck.base(cfg, probe) {
 		return nil
 	}
-	return diffKeys(f, unpack(ck.baseline[cfg][probe]))
+	return diffKeys(f, unpack(ck.base(cfg, probe)))
+}
+
+// base: the packed fresh-application observation of a probe. The main product's entries are
+// computed up front (computeBaseline); the entries of the derived-value family (many letters,
+// each worker needs few of them) on first use — twice, because the oracle rests on them.
+func (ck *checker) base(cfg, probe int) string {
+	if b := ck.baseline[cfg][probe]; b != "" {
+		return b
+	}
+	one := func() string {
+		pr := probes[probe]
+		r := runTraceOpt(cfg, [][]byte{pr.Raw}, []bool{true}, []connAttr{pr.Conn}, true)
+		if r.PanicAt >= 0 {
+			core.Fatal("baseline probe %s panics on a fresh app (cfg %s): %s", pr.Name, cfgNames[cfg], r.PanicMsg)
+		}
+		return pack(flat(r, 0))
+	}
+	a, b := one(), one()
+	if a != b {
+		core.Fatal("fresh-app observation is not reproducible: cfg=%s probe=%s keys=%v", cfgNames[cfg], probes[probe].Name, diffKeys(unpack(a), unpack(b)))
+	}
+	ck.baseline[cfg][probe] = a
+	return a
 }
 
 func (ck *checker) computeBaseline() [][]string {
 	out := make([][]string, len(cfgNames))
 	for c := range cfgNames {
 		out[c] = make([]string, len(probes))
-		for p, pr := range probes {
+		if c >= mainCfgs {
+			continue
+		}
+		for p, pr := range probes[:mainProbes] {
 			r := runTrace(c, [][]byte{pr.Raw}, []bool{true})
 			if r.PanicAt >= 0 {
 				core.Fatal("baseline probe %s panics on a fresh app (cfg %s): %s", pr.Name, cfgNames[c], r.PanicMsg)
@@ -312,6 +355,9 @@ func (ck *checker) computeBaseline() [][]string {
 func sameBaseline(a, b [][]string) string {
 	for c := range a {
 		for p := range a[c] {
+			if a[c][p] == "" || b[c][p] == "" {
+				continue
+			}
 			if d := diffKeys(unpack(a[c][p]), unpack(b[c][p])); len(d) > 0 {
 				return fmt.Sprintf("cfg=%s probe=%s keys=%v", cfgNames[c], probes[p].Name, d)
 			}
@@ -320,16 +366,28 @@ func sameBaseline(a, b [][]string) string {
 	return ""
 }
 
-func buildReqs(hist []step, probe int, probeNew bool) ([][]byte, []bool) {
+func buildReqs(hist []step, probe int, probeNew bool) ([][]byte, []bool, []connAttr) {
 	reqs := make([][]byte, 0, len(hist)+1)
 	nc := make([]bool, 0, len(hist)+1)
-	for _, s := range hist {
+	var attrs []connAttr // stays nil while every request uses the default connection
+	note := func(i int, a connAttr) {
+		if a == (connAttr{}) && attrs == nil {
+			return
+		}
+		if attrs == nil {
+			attrs = make([]connAttr, len(hist)+1)
+		}
+		attrs[i] = a
+	}
+	for i, s := range hist {
 		reqs = append(reqs, historyAlphabet[s.L].Raw)
 		nc = append(nc, s.New)
+		note(i, historyAlphabet[s.L].Conn)
 	}
 	reqs = append(reqs, probes[probe].Raw)
 	nc = append(nc, probeNew)
-	return reqs, nc
+	note(len(hist), probes[probe].Conn)
+	return reqs, nc, attrs
 }
 
 type rerun struct {
@@ -359,8 +417,8 @@ func (ck *checker) violates(cfg int, hist []step, probe int, probeNew bool) reru
 }
 
 func (ck *checker) violatesFresh(cfg int, hist []step, probe int, probeNew bool) rerun {
-	reqs, nc := buildReqs(hist, probe, probeNew)
-	r := runTrace(cfg, reqs, nc)
+	reqs, nc, attrs := buildReqs(hist, probe, probeNew)
+	r := runTraceOpt(cfg, reqs, nc, attrs, true)
 	ck.l.Add("requests_in_reruns", int64(len(reqs)))
 	if r.PanicAt >= 0 && r.PanicAt < len(hist) {
 		return rerun{}
@@ -460,14 +518,14 @@ func (ck *checker) culpritInfo(cfg int, hist []step, probeNew bool) culprit {
 		return c
 	}
 	var keys, seen []string
-	for p := range probes {
+	for p := range probes[:mainProbes] {
 		if v := ck.violates(cfg, hist, p, probeNew); len(v.Diff) > 0 {
 			keys = append(keys, v.Diff...)
 			seen = append(seen, probes[p].Name)
 		}
 	}
 	c := culprit{Leaked: categories(keys), SeenBy: strings.Join(seen, ",")}
-	if len(seen) == len(probes) {
+	if len(seen) == mainProbes {
 		c.SeenBy = "every-probe"
 	}
 	ck.culprits[key] = c
@@ -480,8 +538,8 @@ func (ck *checker) culpritInfo(cfg int, hist []step, probeNew bool) culprit {
 // released; every difference found that way is re-examined after a full flush.
 func (ck *checker) check(cfg int, hist []step, probe int, probeNew, flush bool) {
 	l := ck.l
-	reqs, nc := buildReqs(hist, probe, probeNew)
-	r := runTraceOpt(cfg, reqs, nc, flush)
+	reqs, nc, attrs := buildReqs(hist, probe, probeNew)
+	r := runTraceOpt(cfg, reqs, nc, attrs, flush)
 	if !flush {
 		l.Add("traces_without_global_pool_flush", 1)
 	}
@@ -506,7 +564,7 @@ func (ck *checker) check(cfg int, hist []step, probe int, probeNew, flush bool) 
 	f := flat(r, pi)
 	d := ck.diffBase(cfg, probe, f)
 	l.Outcome(fmt.Sprintf("probe=%s status=%s equal-to-fresh=%v", probes[probe].Name, statusOf(r.Resp[pi]), len(d) == 0))
-	if len(hist) >= 2 && hist[0].L == 7 && hist[0].L != hist[1].L && probe == (hist[1].L+len(hist))%len(probes) && cfg == hist[1].L%3 {
+	if len(hist) >= 2 && hist[0].L == 7 && hist[0].L != hist[1].L && probe == (hist[1].L+len(hist))%mainProbes && cfg == hist[1].L%3 {
 		var hs []string
 		for k := range hist {
 			hs = append(hs, statusOf(r.Resp[k]))
@@ -523,7 +581,7 @@ func (ck *checker) check(cfg int, hist []step, probe int, probeNew, flush bool) 
 		if strings.Join(d, "|") != strings.Join(d2.Diff, "|") {
 			l.Violate(fmt.Sprintf("carry-over-through-process-global-pool leaked=%s seen-by=%s", categories(d), probes[probe].Name),
 				"the probe differs from the fresh run only when the process-global pools still hold objects released by an earlier trace on ANOTHER application instance (after runtime.GC() x2 the difference changes or disappears)",
-				map[string]any{"config": cfgNames[cfg], "trace": histStory(hist, probe, probeNew), "previous_trace_probe": probes[(probe+len(probes)-1)%len(probes)].Name,
+				map[string]any{"config": cfgNames[cfg], "trace": histStory(hist, probe, probeNew), "previous_trace_probe": probes[(probe+mainProbes-1)%mainProbes].Name,
 					"difference_without_flush": d, "difference_after_flush": d2.Diff}, nil, nil)
 			return
 		}
@@ -548,7 +606,7 @@ func (ck *checker) check(cfg int, hist []step, probe int, probeNew, flush bool) 
 		}
 	}
 	expd := map[string]string{}
-	fresh := unpack(ck.baseline[cfg][probe])
+	fresh := unpack(ck.base(cfg, probe))
 	for _, k := range mv.Diff {
 		expd[k] = fresh[k]
 	}
@@ -567,7 +625,7 @@ func enumHistories(depth int) [][]int {
 		if len(cur) == depth {
 			return
 		}
-		for l := range historyAlphabet {
+		for l := range historyAlphabet[:mainHist] {
 			nxt := append(append([]int(nil), cur...), l)
 			out = append(out, nxt)
 			rec(nxt)
@@ -597,6 +655,10 @@ func main() {
 	}
 	if r.Deadline.IsZero() {
 		r.Deadline = r.Start.Add(budget)
+	}
+	dvWide = !r.Quick()
+	if v := os.Getenv("C05_DVWIDE"); v != "" {
+		dvWide = v == "1"
 	}
 
 	if r.IsWorker() {
@@ -635,16 +697,25 @@ func main() {
 	debug.SetGCPercent(-1)
 	buildAlphabets()
 	var hnames, pnames []string
-	for _, l := range historyAlphabet {
+	for _, l := range historyAlphabet[:mainHist] {
 		hnames = append(hnames, l.Name)
 	}
-	for _, p := range probes {
+	for _, p := range probes[:mainProbes] {
 		pnames = append(pnames, p.Name)
 	}
 	c := r.P.Counters
 	if c["traces"] > 0 && c["probe_served_by_reused_ctx"] == 0 {
 		core.Fatal("vacuous: no probe was ever served by a reused pooled context")
 	}
+	if c["dv_traces"] > 0 && c["dv_probe_served_by_reused_ctx"]*2 < c["dv_traces"] {
+		core.Fatal("vacuous: derived-value family: only %d of %d probes were served by a reused pooled context", c["dv_probe_served_by_reused_ctx"], c["dv_traces"])
+	}
+	dvVisible, dvBlind := dvVisibility()
+	if dvVisible < 100 && len(dvMembers) > 0 {
+		core.Fatal("vacuous: only %d single-input changes of the derived-value family are visible to a derived observation", dvVisible)
+	}
+	r.P.Counters["dv_members"] = int64(len(dvMembers))
+	r.P.Counters["dv_single_input_changes_seen_by_a_derived_observation"] = int64(dvVisible)
 	ev := core.Evidence{
 		Level:      "model_checking",
 		Exhaustive: true,
@@ -656,20 +727,23 @@ func main() {
 				"max_preceding_requests":   depth,
 				"history_alphabet":         hnames,
 				"probes":                   pnames,
-				"configs":                  cfgNames,
+				"configs":                  cfgNames[:mainCfgs],
 				"connection_choice":        fmt.Sprintf("histories of <= %d requests: every request after the first on the same keep-alive connection | on a new connection (all 2^n patterns); longer histories: preceding requests all on one connection | one connection each, probe pipelined | on a new connection", fullPatternDepth),
 				"workers":                  nw,
 				"application_state_family": appFamilyNotes(),
+				"derived_value_family":     dvBounds(),
+				"derived_value_inputs_changing_only_the_raw_header_dump": dvBlind,
 			},
-			"rule": "states = distinct (config, history, connection pattern) triples; transitions = requests served through ServeConn in compared traces; a trace = history + probe served by a fresh application (pool flush: see assumptions), whose probe observation vector and raw response bytes are compared key by key with the same probe sent first to a fresh application after a pool flush",
+			"rule": "states = distinct (config, history, connection pattern) triples; transitions = requests served through ServeConn in compared traces; a trace = history + probe served by a fresh application (pool flush: see assumptions), whose probe observation vector and raw response bytes are compared key by key with the same probe sent first to a fresh application after a pool flush; the traces of the derived-value family (counters dv_*: one history member + one probe member differing in exactly one request input, see bounds.derived_value_family) are included in traces and transitions but not in states",
 		},
 		Assumptions: []string{
-			fmt.Sprintf("pool flush (runtime.GC() x2) before every trace with <= %d preceding requests (exception: after 2 or more preceding requests, traces whose probe or history contains a letter of the application-state family follow the rule for longer histories); for longer histories before the first of the %d probe traces of a (config, history, connection pattern) — the others run on a fresh application but with the process-global pools as the previous trace left them, and any difference found is re-run after a flush", fullPatternDepth, len(probes)),
+			fmt.Sprintf("pool flush (runtime.GC() x2) before every trace with <= %d preceding requests (exception: after 2 or more preceding requests, traces whose probe or history contains a letter of the application-state family follow the rule for longer histories); for longer histories before the first of the %d probe traces of a (config, history, connection pattern) — the others run on a fresh application but with the process-global pools as the previous trace left them, and any difference found is re-run after a flush", fullPatternDepth, mainProbes),
 			"histories are sequential (one request at a time, GOMAXPROCS=1, GC off during a trace so pooled objects are reused deterministically); concurrent mixes are a separate part: every ordered pair of 7 request kinds (route parameters, wildcard + flash cookie, JSON / form binding, redirect with flash, 404) in flight on one application, all interleavings with <= 2 preemptions at handler/middleware yields and at every pool / mutex / atomic operation of the core and binder packages, each response compared with the same request served alone (counters cc_executions, cc_points)",
 			"wire level through app.Server().ServeConn on an in-memory connection that delivers one request per read; fasthttp's worker pool (goroutine reuse) is bypassed, its RequestCtx pool and fiber's ctx/redirect/binder pools are real",
 			"Date header disabled (Config.DisableDefaultDate); no Server header",
 			"flash-cookie array headers are kept small enough not to exhaust memory (C12 covers allocation)",
 			"SendFile letters: every configuration of the family has CacheDuration < 0 (no fasthttp file cache, no cleaner goroutine per application); one small file with a fixed modification time in a directory private to the worker process; the fields varied one at a time are MaxAge (two values), Download, ByteRange, Compress and FS",
+			"derived-value family: pool flush before the first trace of every (config, probe member); the traces of its other history members run on a fresh application with the process-global pools as the previous trace left them, and any difference found is re-run after a flush; the multipart body has ONE field (fasthttp re-marshals a multipart body by ranging over a map)",
 			"the oracle is differential: it has no opinion on what the right observation is, only that it must not depend on the history",
 		},
 		MinOutcomes: 4,
@@ -727,11 +801,29 @@ func allApp(h []int) bool {
 
 func worker(r *core.Run, depth int) {
 	debug.SetGCPercent(-1)
+	if pf := os.Getenv("C05_PROFILE"); pf != "" && r.Worker == 0 { // development aid
+		f, err := os.Create(pf)
+		if err == nil {
+			_ = pprof.StartCPUProfile(f)
+			defer pprof.StopCPUProfile()
+		}
+	}
 	buildAlphabets()
 	ck := &checker{l: core.NewLocal(), memo: map[string]rerun{}, culprits: map[string]culprit{}}
 	ck.baseline = ck.computeBaseline()
 	if d := sameBaseline(ck.baseline, ck.computeBaseline()); d != "" {
 		core.Fatal("fresh-app observation is not reproducible: %s", d)
+	}
+	// derived-value family first: it is small, and a run stopped by the wall-clock cap must not lose it
+	if !workerDerived(r, ck) {
+		r.Cap("wall-clock budget reached while running the derived-value family")
+	}
+	if os.Getenv("C05_TIMING") != "" {
+		fmt.Fprintf(os.Stderr, "worker %d: derived family done at %.1fs\n", r.Worker, time.Since(r.Start).Seconds())
+	}
+	ck.dropDerived()
+	if os.Getenv("C05_ONLY_DERIVED") != "" { // development aid
+		depth = 0
 	}
 	hists := enumHistories(depth)
 	// shorter histories first (for every configuration), so that a run stopped by the
@@ -748,7 +840,7 @@ func worker(r *core.Run, depth int) {
 	cappedAt := 0
 outer:
 	for _, h := range hists {
-		for cfg := range cfgNames {
+		for cfg := range cfgNames[:mainCfgs] {
 			item++
 			if !r.Shard(item) {
 				continue
@@ -776,7 +868,7 @@ outer:
 				probeNew := n == 0 || pat&(1<<(n-1)) != 0
 				ck.l.Add("states", 1)
 				ck.l.Add(fmt.Sprintf("states_with_%d_preceding", n), 1)
-				for p := range probes {
+				for p := range probes[:mainProbes] {
 					ck.check(cfg, hist, p, probeNew, flushBefore(h, p))
 				}
 			}
@@ -788,6 +880,10 @@ outer:
 	if d := sameBaseline(ck.baseline, ck.computeBaseline()); d != "" {
 		core.Fatal("fresh-app observation drifted during the run: %s", d)
 	}
+	if os.Getenv("C05_TIMING") != "" {
+		fmt.Fprintf(os.Stderr, "worker %d: all done at %.1fs\n", r.Worker, time.Since(r.Start).Seconds())
+	}
+	pprof.StopCPUProfile()
 	cleanupFiles()
 	r.Merge(ck.l.P)
 	r.FinishWorker()
